@@ -157,3 +157,48 @@ Proof.
   all: intros j x Hx; cbn; rewrite get_set; destruct (N.eqb_spec i j);
     [subst; rewrite (Hnew _ _ eq_refl) in Hx; discriminate|exists x; split; [exact Hx|apply oinst_le_refl]].
 Qed.
+
+(* (RelCore defines this tactic inside a section, so it is repeated here) *)
+Ltac kind_cases H :=
+  unfold_steps H; unfold own_inst in H; cbn [fst snd] in H; break_step H;
+  repeat match goal with E : (match _ with _ => _ end) = Some _ |- _ => break_step E end;
+  repeat match goal with E : _ = ?s' |- _ => is_var s'; subst s' end.
+
+Lemma get_thread_upd_inst i f s th : get_thread (upd_inst i f s) th = get_thread s th.
+Proof. unfold get_thread. now rewrite upd_inst_threads. Qed.
+Lemma get_thread_upd_vis n f s th : get_thread (upd_vis n f s) th = get_thread s th.
+Proof. unfold get_thread. now rewrite upd_vis_threads. Qed.
+Lemma get_thread_write_status n s0 s th : get_thread (write_status n s0 s) th = get_thread s th.
+Proof. unfold get_thread. now rewrite write_status_threads. Qed.
+Lemma get_thread_fold_upd_inst (f : inst -> inst) l s th :
+  get_thread (fold_left (fun s i => upd_inst i f s) l s) th = get_thread s th.
+Proof. apply (fold_upd_inst_proj (fun s => get_thread s th)). intros. apply get_thread_upd_inst. Qed.
+Lemma vis_of_write_status_insts n s0 s : insts (write_status n s0 s) = insts s.
+Proof. apply write_status_insts. Qed.
+#[export] Hint Rewrite get_thread_upd_inst get_thread_upd_vis get_thread_write_status get_thread_fold_upd_inst : sup.
+
+Lemma running_fold_upd_inst (f : inst -> inst) l s : running (fold_left (fun s i => upd_inst i f s) l s) = running s.
+Proof. apply (fold_upd_inst_proj running). intros. apply upd_inst_running. Qed.
+Lemma viss_fold_upd_inst (f : inst -> inst) l s : viss (fold_left (fun s i => upd_inst i f s) l s) = viss s.
+Proof. apply (fold_upd_inst_proj viss). intros. apply upd_inst_viss. Qed.
+Lemma thinst_fold_upd_inst (f : inst -> inst) l s : thinst (fold_left (fun s i => upd_inst i f s) l s) = thinst s.
+Proof. apply (fold_upd_inst_proj thinst). intros. apply upd_inst_thinst. Qed.
+Lemma threads_fold_upd_inst (f : inst -> inst) l s : threads (fold_left (fun s i => upd_inst i f s) l s) = threads s.
+Proof. apply (fold_upd_inst_proj threads). intros. apply upd_inst_threads. Qed.
+Lemma vis_of_fold_upd_inst (f : inst -> inst) l s n : vis_of (fold_left (fun s i => upd_inst i f s) l s) n = vis_of s n.
+Proof. unfold vis_of. now rewrite viss_fold_upd_inst. Qed.
+#[export] Hint Rewrite running_fold_upd_inst viss_fold_upd_inst thinst_fold_upd_inst threads_fold_upd_inst vis_of_fold_upd_inst : sup.
+
+(* get_thread through plain field updates *)
+Lemma get_thread_set_sd v s th : get_thread (s <| sd_active := v |>) th = get_thread s th. Proof. reflexivity. Qed.
+Lemma get_thread_set_lock v s th : get_thread (s <| reg_lock := v |>) th = get_thread s th. Proof. reflexivity. Qed.
+Lemma get_thread_set_wg v s th : get_thread (s <| wg := v |>) th = get_thread s th. Proof. reflexivity. Qed.
+Lemma get_thread_set_runc v s th : get_thread (s <| run_called := v |>) th = get_thread s th. Proof. reflexivity. Qed.
+Lemma get_thread_set_thinst v s th : get_thread (s <| thinst := v |>) th = get_thread s th. Proof. reflexivity. Qed.
+Lemma get_thread_set_running v s th : get_thread (s <| running := v |>) th = get_thread s th. Proof. reflexivity. Qed.
+Lemma get_thread_set_donereg v s th : get_thread (s <| donereg := v |>) th = get_thread s th. Proof. reflexivity. Qed.
+Lemma get_thread_set_insts v s th : get_thread (s <| insts := v |>) th = get_thread s th. Proof. reflexivity. Qed.
+Lemma get_thread_set_pcode v s th : get_thread (s <| proj_code := v |>) th = get_thread s th. Proof. reflexivity. Qed.
+Lemma get_thread_set_cset v s th : get_thread (s <| code_set := v |>) th = get_thread s th. Proof. reflexivity. Qed.
+#[export] Hint Rewrite get_thread_set_sd get_thread_set_lock get_thread_set_wg get_thread_set_runc get_thread_set_thinst
+  get_thread_set_running get_thread_set_donereg get_thread_set_insts get_thread_set_pcode get_thread_set_cset : sup.
